@@ -417,6 +417,7 @@ func Run(sc *Scenario) (res *Result) {
 						f.Drop = true
 					case "dup":
 						f.Dup = 1
+						f.DupLag = time.Duration(r.Ms) * time.Millisecond
 					case "delay":
 						f.Delay = time.Duration(r.Ms) * time.Millisecond
 					}
@@ -430,6 +431,7 @@ func Run(sc *Scenario) (res *Result) {
 					f.Drop, e.Fate = true, "drop"
 				case x < sc.LossPct+sc.DupPct:
 					f.Dup, e.Fate = 1, "dup"
+					f.DupLag = time.Duration(rng.Intn(60)) * time.Millisecond
 				case x < sc.LossPct+sc.DupPct+sc.DelayPct:
 					f.Delay, e.Fate = time.Duration(5+rng.Intn(60))*time.Millisecond, "delay"
 				}
@@ -608,7 +610,10 @@ func Run(sc *Scenario) (res *Result) {
 				close(sig(hit.Reach))
 			}
 			if hit.Until != "" {
-				<-sig(hit.Until)
+				select {
+				case <-sig(hit.Until):
+				case <-time.After(900 * time.Second):
+				}
 			} else if hit.Ms > 0 {
 				time.Sleep(time.Duration(hit.Ms) * time.Millisecond)
 			}
@@ -736,6 +741,7 @@ func runProg(rec *recorder, ep string, idx int, conn net.Conn, ops []Op, roff0 i
 	roff := roff0
 	closed := false
 	timeouts := 0
+	var wbuf []byte
 	read := func(buf []byte) (int, error) {
 		n, err := conn.Read(buf)
 		ok := true
@@ -750,9 +756,18 @@ func runProg(rec *recorder, ep string, idx int, conn net.Conn, ops []Op, roff0 i
 		switch op.Name() {
 		case "w":
 			n := op.Int(1)
-			data := KS(idx, dirW, woff, n)
+			// like io.Copy, the application reuses ONE buffer for all its writes
+			// and overwrites it as soon as Write has returned
+			if cap(wbuf) < n {
+				wbuf = make([]byte, n)
+			}
+			data := wbuf[:n]
+			copy(data, KS(idx, dirW, woff, n))
 			rec.add(Event{Ev: "Wb", Ep: ep, S: idx, N: n, Off: woff})
 			m, err := conn.Write(data)
+			for i := range data {
+				data[i] = 0xEE
+			}
 			rec.add(Event{Ev: "W", Ep: ep, S: idx, N: m, Ok: err == nil, Err: errClass(err), Off: woff, A: n})
 			woff += int64(m)
 		case "r":
@@ -810,9 +825,17 @@ func runProg(rec *recorder, ep string, idx int, conn net.Conn, ops []Op, roff0 i
 			el := time.Since(rec.start).Milliseconds()
 			rec.add(Event{Ev: "Mark", Ep: ep, S: idx, N: op.Int(1), Ok: el <= int64(op.Int(1)), Off: -1})
 		case "sig":
-			close(sig(op.Str(1)))
+			func() {
+				defer func() { recover() }() // signalled twice
+				close(sig(op.Str(1)))
+			}()
 		case "wait":
-			<-sig(op.Str(1))
+			// bounded: a peer programme that never started (or died) must not wedge the harness
+			select {
+			case <-sig(op.Str(1)):
+			case <-time.After(900 * time.Second):
+				rec.add(Event{Ev: "WaitTimeout", Ep: ep, S: idx, Err: op.Str(1), Off: -1})
+			}
 		}
 	}
 	if !closed {
